@@ -23,8 +23,6 @@ read as `W.other` / `Obs.unreadable`.
 namespace Gate
 open Proto Generated.Gate
 
-def methodOfName (n : String) : Option Method := Method.all.find? (fun m => m.name == n)
-
 def parseShape : String → Option PShape
   | "absent" => some .absent | "null" => some .null | "ok" => some .objOk | "degraded" => some .objDegraded
   | "undecodable" => some .objUndecodable | "wrongtype" => some .wrongType | _ => none
